@@ -2,6 +2,7 @@
 package main
 
 import (
+	"bytes"
 	"crypto/md5"
 	"crypto/sha1"
 	"crypto/sha256"
@@ -126,8 +127,30 @@ func gen(g *hx.Gen) {
 				secret = r.Bytes(a.size) // a PRK of HashLen bytes (but any length is allowed)
 			}
 			g.Stat("hk." + api + "." + a.name)
-			g.Emit("hk api=%s hash=%s secret=%s salt=%s info=%s reads=%s", api, a.name, hx.Hex(secret),
-				hx.Hex(someBytes(r, 80)), hx.Hex(someBytes(r, 100)), hx.JoinInts(readSeq(g, a.size)))
+			info := someBytes(r, 100)
+			reads := readSeq(g, a.size)
+			if r.Chance(1, 3) { // whole-block Reads followed by more Reads: where a reader could keep caller memory
+				reads = append([]int{a.size * r.Range(1, 3)}, reads...)
+				if r.Bool() {
+					reads = append(reads, a.size, 1, a.size*2, 3)
+				}
+				g.Stat("reads.full-block-first")
+			}
+			wipes := make([]string, len(reads))
+			for j := range wipes {
+				wipes[j] = r.PickStr("z", "f", "r", "z", "-")
+			}
+			reuse := r.Intn(2)
+			if reuse == 1 {
+				g.Stat("reads.buffer-reused")
+			}
+			extra := ""
+			if len(info) > 0 && len(reads) > 1 && r.Chance(1, 5) { // caller overwrites `info` between Reads
+				extra = fmt.Sprintf(" infomut=%d:%s", r.Intn(len(reads)), hx.Hex(r.Bytes(len(info))))
+				g.Stat("info-mutated")
+			}
+			g.Emit("hk api=%s hash=%s secret=%s salt=%s info=%s reads=%s wipe=%s reuse=%d mutkeys=%d%s", api, a.name, hx.Hex(secret),
+				hx.Hex(someBytes(r, 80)), hx.Hex(info), hx.JoinInts(reads), hx.JoinStrs(wipes), reuse, r.Intn(2), extra)
 		case k < 6:
 			g.Stat("extract")
 			g.Emit("ex hash=%s secret=%s salt=%s", a.name, hx.Hex(someBytes(r, 200)), hx.Hex(someBytes(r, 200)))
@@ -161,26 +184,91 @@ func exec(line string) string {
 	}
 	switch o.Cmd {
 	case "hk":
+		// caller-owned buffers: the reader must not depend on them after the call returns
+		// (secret, salt: consumed by Extract / hmac.New) and must not write to them; `info` is kept by
+		// reference by hkdfReader (current behaviour, modelled: `infomut`).
+		secret, salt, info := o.Hex("secret"), o.Hex("salt"), o.Hex("info")
+		secret0, salt0, info0 := bytes.Clone(secret), bytes.Clone(salt), bytes.Clone(info)
 		var rd io.Reader
 		switch o.Str("api") {
 		case "new":
-			rd = hkdf.New(a.new, o.Hex("secret"), o.Hex("salt"), o.Hex("info"))
+			rd = hkdf.New(a.new, secret, salt, info)
 		case "expand":
-			rd = hkdf.Expand(a.new, o.Hex("secret"), o.Hex("info"))
+			rd = hkdf.Expand(a.new, secret, info)
 		default:
 			return "bad-op"
 		}
+		if !bytes.Equal(secret, secret0) || !bytes.Equal(salt, salt0) || !bytes.Equal(info, info0) {
+			return "input-modified"
+		}
+		if o.Str("mutkeys") == "1" { // scribble over secret and salt once the reader exists
+			for i := range secret {
+				secret[i] ^= 0xa5
+			}
+			for i := range salt {
+				salt[i] = 0
+			}
+		}
+		mutAt, mutTo := -1, []byte(nil)
+		if o.Has("infomut") {
+			k, h, _ := strings.Cut(o.Str("infomut"), ":")
+			fmt.Sscanf(k, "%d", &mutAt)
+			mutTo = hx.UnHex(h)
+			if len(mutTo) != len(info) {
+				return "bad-op"
+			}
+		}
+		reads := o.Ints("reads")
+		wipes := o.List("wipe")
+		maxk := 0
+		for _, k := range reads {
+			if k > maxk {
+				maxk = k
+			}
+		}
+		shared := make([]byte, maxk)
 		var outs []string
-		for _, k := range o.Ints("reads") {
-			p := make([]byte, k)
+		for idx, k := range reads {
+			if idx == mutAt {
+				copy(info, mutTo) // the caller overwrites its info slice in place
+				info0 = bytes.Clone(info)
+			}
+			var p []byte
+			if o.Str("reuse") == "1" {
+				p = shared[:k]
+			} else {
+				p = make([]byte, k)
+			}
 			n, err := rd.Read(p)
 			switch {
 			case err != nil && n == 0:
 				outs = append(outs, "err")
 			case err == nil && n == k:
-				outs = append(outs, hx.Hex(p))
+				outs = append(outs, hx.Hex(p)) // copy out …
 			default:
 				outs = append(outs, fmt.Sprintf("short:%d", n))
+			}
+			// … then the caller overwrites its buffer (e.g. wipes the key) before the next Read
+			w := "-"
+			if idx < len(wipes) {
+				w = wipes[idx]
+			}
+			switch w {
+			case "z":
+				for i := range p {
+					p[i] = 0
+				}
+			case "f":
+				for i := range p {
+					p[i] = 0xff
+				}
+			case "r":
+				for i := range p {
+					p[i] = byte(37*i + 11*idx + 5)
+				}
+			}
+			if !bytes.Equal(info, info0) {
+				return "input-modified"
 			}
 		}
 		if len(outs) == 0 {
